@@ -112,6 +112,11 @@ def h_inh_invariant(env, slmode):
 
 def _settings(st, kind):
     th = [1.0, 0.0, 0.03125]
+    if kind.endswith("_tau0"):
+        # a purely density-dependent length scale: no gradient and no kinetic-energy term in the theta exponent
+        sub, slot = _settings(st, kind[:-5])
+        sub.theta_params = [1.0, 0.0, 0.0] if len(sub.theta_params) == 3 else [1.0, 0.0]
+        return sub, slot
     if kind == "vj":
         return st.NLDFSettingsVJ("MGGA", th, "one", ["se", "se_ar2", "se_a2r4"], [[2.0, 0.0, 0.04], [1.0, 0.0, 0.03], [0.5, 0.0, 0.02]]), "nldf"
     if kind == "vj_expnt":
@@ -146,7 +151,7 @@ def _settings(st, kind):
     raise ValueError(kind)
 
 
-KINDS = ["vj", "vj_expnt", "vj_gga", "vi", "vij", "vk", "fl", "fl_d", "fl_d2", "sadm", "sdmx", "sdmxg", "sdmx1", "sdmxg1", "sdmxfull"]
+KINDS = ["vj_tau0", "vi_tau0", "vj_gga_tau0", "vj_expnt_tau0", "vj", "vj_expnt", "vj_gga", "vi", "vij", "vk", "fl", "fl_d", "fl_d2", "sadm", "sdmx", "sdmxg", "sdmx1", "sdmxg1", "sdmxfull"]
 
 
 def h_recommended(env, kind, slmode):
